@@ -170,6 +170,29 @@ def one_history(ctx, i, tmproot):
                                         file_func_before=p.features.get(k + "_func_before", False),
                                         expected=str(counts_prev[k]), observed=str(counts[k])), replay)
             counts_prev, prev_truth = counts, t
+        if i % 3 == 1 and os.path.isfile(p.files[truths[-1]]):
+            # the truth named SECOND for its kind, after a file that is not there: whatever the command line makes
+            # of that (today: rejected), the file the user calls the truth keeps its bytes
+            flag = {"argparse_function": "--argparse-function", "class": "--class", "function": "--function"}
+            t = truths[-1]
+            p.truth = t
+            argv = ["sync", "--truth", t]
+            for k in p.files:
+                if k == t:
+                    argv += [flag[k], os.path.join(os.path.dirname(p.files[k]), "zq_not_there_" + os.path.basename(p.files[k]))]
+                argv += [flag[k], p.files[k], flag[k] + "-name", p.names[k]]
+            if hand_written or rng.random() < 0.5:
+                with open(p.files[t], "a") as fh:
+                    fh.write("\n\nZQ_HAND = \"double quoted zq\"  # a hand-written line\n")
+            with open(p.files[t], "rb") as fh:
+                truth_bytes = fh.read()
+            res = run_cli(p, argv=argv)
+            ctx.event("runs_with_truth_listed_after_a_missing_file")
+            with open(p.files[t], "rb") as fh:
+                truth_after = fh.read()
+            if truth_after != truth_bytes:
+                ctx.report(dict(base, truth=t, run_no=len(truths) + 1, field="truth_file", tag="truth_modified_when_listed_after_a_missing_file",
+                                expected="byte-identical", observed="changed (exit status {})".format(res["rc"])), replay)
         ctx.event("histories")
     finally:
         shutil.rmtree(root, ignore_errors=True)
